@@ -20,6 +20,7 @@ from ..sharesmodel import EVERYONE, FRIENDS, USERS, RefIndex, is_under, parse_qu
 
 ID = 'C07'
 LEVEL = 'exploration'
+QUICK_SCALE = 3      # the quick tier was enlarged by this factor after MIN_OBS['quick'] was measured
 RULE = (
     "One case = one seeded history (<= 8 operations, the last one a full scan()) over a real temp directory tree "
     "(<= 30 files, 2-4 levels, names from a per-case word pool with suffix-sharing words song/long/along, "
@@ -81,7 +82,7 @@ WHAT_FAILS = {
                                              "keeping the old relative sub-directory: absolute paths become wrong",
 }
 
-SIZES = {'quick': 1000, 'thorough': 20000}
+SIZES = {'quick': 3000, 'thorough': 20000}
 
 USER_POOL = ['alice', 'bob', 'carol', 'dave']
 FAMILIES = [
